@@ -561,6 +561,18 @@ avg, last = a, avg
 mon.write(last)
 mon.write(avg)
 ''',
+    "shift_types_new": '''
+avg = a * 0.5
+avg, last = a, avg
+mon.write(last)
+mon.write(avg)
+''',
+    "tuple_new_mixed": '''
+p, q = a / 4.0, b
+r, p = p, q
+mon.write(r)
+mon.write(p)
+''',
     "ternary_mixed": '''
 v = 0.5 if a > 0 else 2
 mon.write(v)
@@ -692,6 +704,9 @@ def fold_family(tier="quick") -> List[Tuple[str, str]]:
     cases["len_remove"] = H2 + "xs = [1, 2, 3]\nxs.remove(2)\nwhile True:\n    mon.write(len(xs))\n    mon.write(xs[1])\n"
     cases["len_remove_branch"] = H2 + "xs = [1, 2, 3]\nwhile True:\n" + READ_AB + \
         "    if a > 0:\n        xs.remove(2)\n    mon.write(len(xs))\n"
+    cases["len_append_runtime_setup"] = H2 + 'xs = [1, 2]\nxs.append(7)\nv = analog_read("A0")\nxs.append(v)\nwhile True:\n    mon.write(len(xs))\n    mon.write(xs[3])\n'
+    cases["len_append_runtime_then_const"] = H2 + 'xs = [1]\nv = analog_read("A0")\nxs.append(v)\nxs.append(5)\nwhile True:\n    sleep(len(xs) * 10)\n'
+    cases["len_remove_runtime_setup"] = H2 + 'xs = [1, 2, 3]\nv = analog_read("A0")\nxs.remove(v)\nwhile True:\n    mon.write(len(xs))\n'
     cases["len_str"] = H2 + 's = "abc"\nwhile True:\n    mon.write(len(s))\n'
     cases["len_str_reassign_branch"] = H2 + 's = "abc"\nwhile True:\n' + READ_AB + \
         '    if a > 0:\n        s = "abcdef"\n    mon.write(len(s))\n'
